@@ -414,6 +414,9 @@ int read_elf(
           elf_sym.st_size  = file.get_int64();
         }
 
+        // The symbol table claims to be bigger than the file.
+        if (file.is_eof()) { break; }
+
         file.get_string_at_offset(
           name,
           sizeof(name),
